@@ -215,6 +215,13 @@ def run_case(case):
             if any(c in case["classes"] for c in ("dm:psd", "dm:psd-lowrank", "dm:diag", "dm:zero")):
                 out = cm.call(fn, dm.copy(), B(), pts.copy(), **extra, **kw)
                 evals[0] += 1
+                if isinstance(out, np.ndarray) and out.shape == v.shape:
+                    # at the default threshold nothing but negative values may be altered (small positive values in the
+                    # tails of the functions are returned as they are)
+                    e = cm.maxerr(out, np.clip(v, 0, None), vsc + 1e-280)[0]
+                    errs[name + "_default_threshold"] = max(errs.get(name + "_default_threshold", 0.0), e)
+                    if not e <= TOL:
+                        viols.append(cm.viol("%s at the default threshold deviates from the definition by %.3e of the scale for a PSD density matrix" % (name, e), name + "_default_threshold", e, TOL))
                 if isinstance(out, cm.Raised):
                     # rounding may produce a tiny negative number; only a value beyond rounding noise is judged
                     if abs(vmin) <= 1e-8 or vmin >= -TOL * float(vsc.max()):
